@@ -443,85 +443,73 @@ Proof.
   eapply desc_trans; [apply Hstep; assumption|]. apply IH. eapply desc_nodup. apply Hstep. assumption.
 Qed.
 
-Lemma update_hostname_desc rg orig new_name pt now :
-  NoDup (keys (rg_probing rg)) -> now <= pt ->
-  desc now (rg_probing rg) (rg_probing (fst (update_hostname rg orig new_name pt))).
+Lemma fold_left_preserves {A X} (P : A -> Prop) (step : A -> X -> A) (l : list X) :
+  (forall a x, P a -> P (step a x)) -> forall a, P a -> P (fold_left step l a).
+Proof. intros Hs. induction l as [|x t IH]; intros a Ha; simpl; auto. Qed.
+
+(* conflict handling keeps one probe per name; it may restart probes (new names, and the probe of
+   an SRV record whose target host was renamed): the spacing count starts afresh after it *)
+Lemma update_hostname_nodup rg orig new_name pt :
+  NoDup (keys (rg_probing rg)) -> NoDup (keys (rg_probing (fst (update_hostname rg orig new_name pt)))).
 Proof.
-  intros Hnd Hle. unfold update_hostname.
-  set (g := fun p : probe => mkProbe (filter (fun r => negb (srv_with_host orig r)) (pb_records p))
-                                     (pb_waiting p) (pb_start p) (pb_next p)).
-  set (probing1 := map (fun np : bytes * probe => (fst np, g (snd np))) (rg_probing rg)).
-  eapply desc_trans with (ps2 := probing1).
-  - unfold probing1. apply desc_map; [assumption|]. intros p. reflexivity.
-  - match goal with |- desc _ _ (rg_probing (fst (fold_left ?st ?l ?acc))) =>
-      change probing1 with (rg_probing (fst acc));
-      apply (fold_desc now (fun a : registry * bool => rg_probing (fst a)) st l)
-    end.
-    + intros [rg1 added] r0 Hnd1. simpl in *.
-      destruct (aget (p_name (srv_set_host new_name r0)) (rg_probing rg1)) as [p|] eqn:G; simpl.
-      * eapply desc_aset_same; eauto.
-      * apply desc_aset_new; auto.
-    + cbn [fst rg_probing]. unfold probing1. rewrite (keys_map_snd g). assumption.
+  intros Hnd. unfold update_hostname.
+  match goal with |- context [fold_left ?st ?l ?acc] =>
+    apply (fold_left_preserves (fun a : registry * bool => NoDup (keys (rg_probing (fst a)))) st l)
+  end.
+  - intros [rg1 added] r0 H. simpl in *.
+    destruct (aget (p_name (srv_set_host new_name r0)) (rg_probing rg1)); simpl; apply NoDup_aset; assumption.
+  - simpl.
+    rewrite (keys_map_snd (fun p : probe => mkProbe (filter (fun r => negb (srv_with_host orig r)) (pb_records p))
+                                                  (pb_waiting p) (pb_start p) (pb_next p))).
+    assumption.
 Qed.
 
-Lemma conflict_one_desc rg ans ct now :
-  NoDup (keys (rg_probing rg)) -> now <= ct ->
-  desc now (rg_probing rg) (rg_probing (conflict_one rg ans ct)).
+Lemma conflict_one_nodup rg ans ct :
+  NoDup (keys (rg_probing rg)) -> NoDup (keys (rg_probing (conflict_one rg ans ct))).
 Proof.
-  intros Hnd Hle. unfold conflict_one.
-  destruct (aget (r_name ans) (rg_probing rg)) as [pb|] eqn:G; [|apply desc_refl; assumption].
-  eapply desc_trans.
-  - eapply (desc_aset_same now _ (r_name ans) pb
-             (mkProbe (filter (fun r => negb (conflicting ans r)) (pb_records pb)) (pb_waiting pb) (pb_start pb) (pb_next pb)));
-      eauto.
-  - match goal with |- desc _ ?ps0 (rg_probing (fold_left ?st ?l ?acc)) =>
-      change ps0 with (rg_probing acc);
-      apply (fold_desc now rg_probing st l)
-    end.
-    + intros rg1 r Hnd1.
-      destruct (update_hostname rg1 (r_name ans) (p_name r) ct) as [rg2 b] eqn:U.
-      assert (D2 : desc now (rg_probing rg1) (rg_probing rg2)).
-      { replace rg2 with (fst (update_hostname rg1 (r_name ans) (p_name r) ct)) by (rewrite U; reflexivity).
-        apply update_hostname_desc; assumption. }
-      eapply desc_trans; [exact D2|]. simpl.
-      pose proof (desc_nodup _ _ _ D2) as Hnd2.
-      destruct (aget (p_name r) (rg_probing rg2)) as [p|] eqn:G2.
-      * eapply desc_aset_same; eauto.
-      * apply desc_aset_new; auto.
-    + simpl. apply NoDup_aset. assumption.
+  intros Hnd. unfold conflict_one.
+  destruct (aget (r_name ans) (rg_probing rg)) as [pb|]; [|assumption].
+  match goal with |- context [fold_left ?st ?l ?acc] =>
+    apply (fold_left_preserves (fun a : registry => NoDup (keys (rg_probing a))) st l)
+  end.
+  - intros rg1 r H.
+    pose proof (update_hostname_nodup rg1 (r_name ans) (p_name r) ct H) as H2.
+    destruct (update_hostname rg1 (r_name ans) (p_name r) ct) as [rg2 b]. simpl in *.
+    apply NoDup_aset. assumption.
+  - simpl. apply NoDup_aset. assumption.
 Qed.
 
-Lemma apply_conflict_desc rg ans ct now :
-  NoDup (keys (rg_probing rg)) -> now <= ct ->
-  desc now (rg_probing rg) (rg_probing (apply_conflict rg ans ct)).
+Lemma apply_conflict_nodup rg ans ct :
+  NoDup (keys (rg_probing rg)) -> NoDup (keys (rg_probing (apply_conflict rg ans ct))).
 Proof.
-  intros Hnd Hle. unfold apply_conflict. destruct (conflict_applies rg ans).
-  - apply conflict_one_desc; assumption.
-  - apply desc_refl. assumption.
+  intros H. unfold apply_conflict. destruct (conflict_applies rg ans); [apply conflict_one_nodup|]; assumption.
 Qed.
+
+Lemma Inv_reset ps t : NoDup (keys ps) -> Inv ps (fun _ => None) t.
+Proof. intros H. constructor; [assumption| | |]; intros; discriminate. Qed.
 
 (* ---- the theorem: spacing for every sequence of operations and times ------------------------------------------------- *)
 
+Definition ghost_after (f : lastmap) (o : rop) (qs : list bytes) (now : N) : lastmap :=
+  if is_conflict o then (fun _ => None) else upd_all f qs now.
+
 Lemma apply_op_inv rg f t now o rg' qs ex :
   Inv (rg_probing rg) f t -> t <= now -> apply_op rg now o = (rg', qs, ex) ->
-  Inv (rg_probing rg') (upd_all f qs now) now /\
+  Inv (rg_probing rg') (ghost_after f o qs now) now /\
   (forall n, In n qs \/ In n ex -> match f n with Some L => L + 250 <= now | None => True end).
 Proof.
-  intros HI Hle Hop. destruct o; simpl in Hop.
+  intros HI Hle Hop. destruct o as [|jr jsvc jj|qn incoming|ans cj]; simpl in Hop; unfold ghost_after; simpl.
   - destruct (tick_names_inv _ _ _ _ _ _ _ HI Hle Hop) as (H1 & H2 & _). auto.
   - inversion Hop; subst. split; [|intros n [[]|[]]].
     eapply Inv_desc; [exact HI|exact Hle|]. apply join_desc. destruct HI; assumption.
   - inversion Hop; subst. split; [|intros n [[]|[]]].
     eapply Inv_desc; [exact HI|exact Hle|]. apply apply_tiebreak_desc. destruct HI; assumption.
   - inversion Hop; subst. split; [|intros n [[]|[]]].
-    eapply Inv_desc; [exact HI|exact Hle|]. apply apply_conflict_desc; [destruct HI; assumption|lia].
+    apply Inv_reset. apply apply_conflict_nodup. destruct HI; assumption.
 Qed.
 
-Lemma upd_all_nil f now : forall x, upd_all f [] now x = f x.
-Proof. reflexivity. Qed.
-
 Lemma spaced_run ops : forall rg f t n,
-  Inv (rg_probing rg) f t -> times_from t ops -> spaced_250 n (f n) (run_ops rg ops).
+  Inv (rg_probing rg) f t -> times_from t ops -> spaced_250 n (f n) ops (run_ops rg ops).
 Proof.
   induction ops as [|[now o] rest IH]; intros rg f t n HI Ht; simpl; [exact I|].
   destruct Ht as [Hle Hrest].
@@ -529,29 +517,34 @@ Proof.
   destruct (apply_op_inv _ _ _ _ _ _ _ _ HI Hle Hop) as [HI' Hsp].
   split.
   - intros [H|H]; apply mem_In in H; apply Hsp; auto.
-  - specialize (IH rg' (upd_all f qs now) now n HI' Hrest).
-    unfold upd_all in IH at 1. exact IH.
+  - specialize (IH rg' (ghost_after f o qs now) now n HI' Hrest).
+    unfold ghost_after in IH. destruct (is_conflict o); [exact IH|unfold upd_all in IH; exact IH].
 Qed.
 
 Theorem probe_spacing_all_schedules_proof : forall ops n t0,
-  times_from t0 ops -> spaced_250 n None (run_ops reg_new ops).
+  times_from t0 ops -> spaced_250 n None ops (run_ops reg_new ops).
 Proof.
   intros ops n t0 Ht. apply (spaced_run ops reg_new (fun _ => None) t0 n); [apply Inv_init|assumption].
 Qed.
 
 (* what spaced_250 says about the list of probe times (gaps_250 is defined in Model/Registry.v) *)
-Lemma spaced_probe_times n tr : forall last,
-  spaced_250 n last tr ->
-  gaps_250 (probe_times n tr) /\
-  match last, probe_times n tr with Some l, a :: _ => l + 250 <= a | _, _ => True end.
+Definition no_conflicts (ops : list (N * rop)) : Prop := Forall (fun o => is_conflict (snd o) = false) ops.
+
+Lemma spaced_probe_times n : forall ops rg last,
+  no_conflicts ops -> spaced_250 n last ops (run_ops rg ops) ->
+  gaps_250 (probe_times n (run_ops rg ops)) /\
+  match last, probe_times n (run_ops rg ops) with Some l, a :: _ => l + 250 <= a | _, _ => True end.
 Proof.
-  induction tr as [|[[t qs] ex] tr IH]; intros last H; simpl in *.
+  induction ops as [|[t o] r IH]; intros rg last Hnc H; simpl in *.
   - split; [exact I|destruct last; exact I].
-  - destruct H as [H1 H2]. destruct (mem n qs) eqn:M; simpl.
-    + destruct (IH _ H2) as [G1 G2]. split.
-      * destruct (probe_times n tr) eqn:P; [exact I|]. split; assumption.
+  - inversion Hnc as [|x l Ho Hr]; subst. simpl in Ho.
+    destruct (apply_op rg t o) as [[rg' qs] ex] eqn:Hop. simpl in *. rewrite Ho in H.
+    destruct H as [H1 H2]. unfold probe_times in *. cbn [flat_map].
+    destruct (mem n qs) eqn:M; simpl.
+    + destruct (IH rg' _ Hr H2) as [G1 G2]. split.
+      * destruct (flat_map _ (run_ops rg' r)) eqn:P; [exact I|]. split; assumption.
       * destruct last; [apply H1; auto|exact I].
-    + apply IH. assumption.
+    + apply IH; assumption.
 Qed.
 
 (* ---- one name through one probing pass ---------------------------------------------------------------------------------- *)
@@ -850,10 +843,6 @@ Proof.
   destruct (beq m k); [intros H; inversion H; eauto|assumption].
 Qed.
 
-Lemma fold_left_preserves {A X} (P : A -> Prop) (step : A -> X -> A) (l : list X) :
-  (forall a x, P a -> P (step a x)) -> forall a, P a -> P (fold_left step l a).
-Proof. intros Hs. induction l as [|x t IH]; intros a Ha; simpl; auto. Qed.
-
 Lemma update_hostname_active rg orig new_name pt m rs r :
   aget m (rg_active (fst (update_hostname rg orig new_name pt))) = Some rs -> In r rs ->
   exists rs0, aget m (rg_active rg) = Some rs0 /\ In r rs0.
@@ -950,9 +939,10 @@ Proof.
   intros Ht. destruct (reach_inv ops reg_new (fun _ => None) t0 (Inv_init t0) Ht) as (f & t & [H _ _ _]). exact H.
 Qed.
 
-Corollary probe_times_gaps ops n t0 : times_from t0 ops -> gaps_250 (probe_times n (run_ops reg_new ops)).
+Corollary probe_times_gaps ops n t0 :
+  times_from t0 ops -> no_conflicts ops -> gaps_250 (probe_times n (run_ops reg_new ops)).
 Proof.
-  intros Ht. apply (spaced_probe_times n _ None). eapply probe_spacing_all_schedules_proof. eassumption.
+  intros Ht Hnc. apply (spaced_probe_times n ops reg_new None Hnc). eapply probe_spacing_all_schedules_proof. eassumption.
 Qed.
 
 (* a record registered at `now` with jitter j < 250 whose name is neither held nor being probed:
